@@ -533,6 +533,17 @@ theorem mkFScalar_safe {n : Nat} {db : Db} {number : Rat} {num : Int} {den : Nat
   unfold mkFScalar; sauto
 macro_rules | `(tactic| sleaf) => `(tactic| exact mkFScalar_safe)
 
+theorem allocPairs_safe {n : Nat} (items : List (Sym × Sym × Int)) : Safe n (allocPairs items) (fun _ => True) := by
+  induction items with
+  | nil => unfold allocPairs; sauto
+  | cons e rest ih => obtain ⟨c, u, x⟩ := e; unfold allocPairs; sauto
+macro_rules | `(tactic| sleaf) => `(tactic| exact allocPairs_safe _)
+
+theorem mkDerived_safe {n : Nat} {db : Db} {cls : Cls} {items : List (Sym × Sym × Int)} {v : Rat} {k : Kind}
+    {xs : List Rat} : Safe n (mkDerived db cls items v k xs) (fun _ => True) := by
+  unfold mkDerived; sauto
+macro_rules | `(tactic| sleaf) => `(tactic| exact mkDerived_safe)
+
 theorem fresh_safe {n : Nat} {m : M Nat} (h : Safe n m (fun _ => True)) : Safe n (fresh m) (fun _ => True) := by
   unfold fresh; sauto
 
